@@ -627,7 +627,8 @@ def reshape(x, *shape, _view=False):
         return base._view(ns, fwd, inv, contiguous=True)
     if not x._contig:
         if _view:
-            raise RuntimeError("view size is not compatible with input tensor's size and stride (at least one dimension spans across two contiguous subspaces). Use .reshape(...) instead.")
+            # torch decides by strides; the model does not track them: undecided, never guessed
+            raise Unsupported("view() of a tensor that may be non-contiguous (stride compatibility is not modelled)")
         x = contiguous(x)
 
     def fwd(idx):
@@ -923,11 +924,12 @@ def stack(tensors, dim=0):
 # reductions (SumOver terms)
 
 _SUM = {}
+_SUMK = itertools.count()
 
 
 def sum_term(n, body_of_k, sort):
     """Σ_{k=0}^{n-1} body(k) as an uninterpreted functional of the lambda (equal bodies = equal sums)."""
-    k = z3.Int("k!sum")
+    k = z3.Int(f"k!sum{next(_SUMK)}")  # fresh: a shared name would be captured by an enclosing sum
     body = body_of_k(k)
     nz = as_z3_int(n)
     cn = concrete(lift(nz))
@@ -988,7 +990,7 @@ def sum_(x, dim=None, keepdim=False, dtype=None):
 
 
 def _nested_sum(e, idx, dims, keep, keepdim, xs, n, src, odt, sort):
-    bound = [z3.Int(f"k!sum{j}") for j in range(len(dims))]
+    bound = [z3.Int(f"k!sum{next(_SUMK)}") for j in range(len(dims))]
     full_ = [None] * n
     if keepdim:
         for k in keep:
